@@ -158,6 +158,9 @@ func runC10(c *Ctx) {
 	checkOverrideInterfacesConsulted(c, "R18")
 	// R19 (= C06.R2): an attribute block is framed by its flags word alone (a flag announced is a field encoded)
 	c.withOnly("R2", "R19", func() { runC06(c) })
+	checkCloseReportsFailure(c, "R20", func(fn *ssa.Function) bool { return !isClientSide(fn) }, 2)
+	checkOneWrapperPerRequest(c, "R21")
+	checkHandlersErrorIsTheOneReported(c, "R22")
 	pos := func(in ssa.Instruction) string { return p.Pos(in.Pos()) }
 	worker := p.Func("(*RequestServer).packetWorker")
 	rfp := p.Func("requestFromPacket")
